@@ -14,7 +14,7 @@ pub struct C17;
 
 fn n_cases(tier: Tier) -> u64 {
     match tier {
-        Tier::Quick => 4_000,
+        Tier::Quick => 7_000,
         Tier::Thorough => 40_000,
     }
 }
@@ -108,7 +108,10 @@ impl Probe<'_> {
     }
 }
 
-pub fn check_program(prog: &Program, rendered: &[Rendered], tape: &mut Tape, dense: bool, r: &mut CaseReport) {
+/// `visit`: a module (file, other text of the same module) that the editor opens with that
+/// other text, lets the server evaluate, and closes without saving before the questions are asked:
+/// the program is the one on disk again.
+pub fn check_program(prog: &Program, rendered: &[Rendered], visit: Option<(&str, &str)>, tape: &mut Tape, dense: bool, r: &mut CaseReport) {
     let tb = table(prog, rendered);
     let ws = Workspace::from_rendered("c17", rendered);
     let mut lsp = match ws.start() {
@@ -118,6 +121,16 @@ pub fn check_program(prog: &Program, rendered: &[Rendered], tape: &mut Tape, den
             return;
         }
     };
+    if let Some((file, other)) = visit {
+        let uri = ws.uri(file);
+        let main = ws.uri(&rendered[0].file);
+        let res = lsp.did_open(&uri, other).and_then(|_| lsp.barrier(&main)).and_then(|_| lsp.did_close(&uri));
+        if let Err(e) = res {
+            r.fail(lsp_err(e, "open / close of an unsaved variant"));
+            return;
+        }
+        r.label("visited-unsaved-variant");
+    }
     let texts: BTreeMap<String, String> = rendered.iter().map(|x| (x.file.clone(), x.text.clone())).collect();
     let mut probe = Probe { ws: &ws, lsp: &mut lsp, texts };
     let mut checked = 0u64;
@@ -317,7 +330,7 @@ impl Property for C17 {
     fn assumptions(&self) -> Vec<String> {
         vec![
             "binding sites of parameters / rec binders, qualifier definitions and the `.` of a qualified name are identifiers or inside a variable node but neither uses nor declarations: nothing is asserted there".into(),
-            "files are served from disk (no didOpen): the answers depend on texts only (C15 covers open documents)".into(),
+            "the questions are asked about files served from disk; one case in three first opens a module with another layout, lets the server evaluate it and closes it unsaved (C15 covers edit histories in general)".into(),
         ]
     }
     fn run_case(&self, tape: &mut Tape, ctx: &CaseCtx) -> CaseReport {
@@ -328,7 +341,16 @@ impl Property for C17 {
         };
         let sources = to_sources(&rendered);
         r.hash = sources.hash64();
-        check_program(&prog, &rendered, tape, ctx.tier == Tier::Thorough, &mut r);
+        // One case in three: a module is first opened with another layout of the same module (other
+        // offsets, same bindings), evaluated, and closed without saving.
+        let visit: Option<(String, String)> = if tape.chance(1, 3) {
+            let m = tape.choose(rendered.len());
+            let other = if tape.chance(1, 2) { render_trivia(&prog, tape) } else { render_plain(&prog) };
+            (other[m].text != rendered[m].text).then(|| (rendered[m].file.clone(), other[m].text.clone()))
+        } else {
+            None
+        };
+        check_program(&prog, &rendered, visit.as_ref().map(|(f, t)| (f.as_str(), t.as_str())), tape, ctx.tier == Tier::Thorough, &mut r);
         r.nontrivial = rendered.len() >= 2 && qualified && r.has_label("references-across-modules");
         if qualified {
             r.label("qualified-use");
@@ -337,7 +359,7 @@ impl Property for C17 {
             r.label("non-ascii");
         }
         if ctx.want_rendered || r.failure.is_some() {
-            r.rendered = Some(json!({"sources": sources.to_json()}));
+            r.rendered = Some(json!({"sources": sources.to_json(), "visit": visit}));
         }
         r
     }
